@@ -19,7 +19,7 @@
 (*   IsPureV2            a well-formed v2 text whose operands cannot be    *)
 (*                       mistaken for v1 syntax                            *)
 (*   IsMixed             an old negation prefix + a new-style operator     *)
-(* Named exceptions KF_C08_n: narrow descriptions of inputs on which the   *)
+(* Named exceptions KF_C08_2/3: narrow descriptions of inputs on which the *)
 (* code is known to break the property (used by TagExprV1_MC to continue   *)
 (* past them and by TagExprV1_Trace to label its verdicts).                *)
 (*                                                                         *)
@@ -115,7 +115,9 @@ Words(in) == SplitWs(ReplParens(AutoText(in)))
 IsNegPrefix(c) == c \in {"~", "-"}
 AutoDetect(in) ==
    LET ws   == Words(in)
-       pref == \E k \in DOMAIN ws : IsNegPrefix(Head(ws[k]))                                   \* contains_v1_prefixes
+       \* contains_v1_prefixes: over word_parts = the comma-separated pieces of the words (a piece may be empty)
+       pref == \E k \in DOMAIN ws : LET ps == SplitOn(ws[k], ",") IN
+                                     \E j \in DOMAIN ps : ps[j] # <<>> /\ IsNegPrefix(Head(ps[j]))
        v1kw == pref \/ \E k \in DOMAIN ws : Contains(ws[k], ",")                               \* contains_v1_keywords
        v2kw == \E k \in DOMAIN ws : Keyword(ws[k]) # "operand" \/ HasMagic(ws[k])              \* contains_v2_keywords
    IN IF pref /\ v2kw THEN "error"
@@ -194,10 +196,6 @@ IsMixed(in) == LET ws == Words(in) IN
                                        \E j \in DOMAIN as : ReadAlt(as[j]).ok /\ ReadAlt(as[j]).neg
 
 \* ---------------------------------------------------------------- named exceptions (known misreads, each as narrow as the defect)
-\* 1: no word starts with a negation prefix, but one follows a comma inside a word (a,-b and c)
-KF_C08_1(in) == LET ws == Words(in) IN
-                /\ ~\E k \in DOMAIN ws : IsNegPrefix(Head(ws[k]))
-                /\ \E k \in DOMAIN ws : \E p \in 1..(Len(ws[k]) - 1) : ws[k][p] = "," /\ IsNegPrefix(ws[k][p + 1])
 \* 2: the whole expression is one positive tag with a ':limit' suffix (a:3): one word, no comma, no prefix
 KF_C08_2(in) == LET ws == Words(in) IN
                 Len(ws) = 1 /\ ~Contains(ws[1], ",") /\ ~IsNegPrefix(Head(ws[1])) /\ Contains(ws[1], ":")
